@@ -1958,3 +1958,7 @@ MA('C20', 'last-place integer index of a product space element taken as p[i:i+1]
    'odl/space/pspace.py', 'ProductSpaceElement.__getitem__',
    'idx = slice(idx, idx + 1 if idx != -1 else None)',
    'idx = slice(idx, idx + 1)', 'R7f')
+MA('C20', 'multi-indexed product space element loses the component weights',
+   'odl/space/pspace.py', 'ProductSpaceElement.__getitem__',
+   'new_space = ProductSpace(*(p.space for p in indexed), weighting=self.space[indices[0]].weighting)',
+   'new_space = ProductSpace(*(p.space for p in indexed))', 'R7f')
